@@ -146,9 +146,12 @@ def gen_T04():
     need(ast.unparse(ifs[0].test) == 'user.checkPassword(password) and user.checkHostmask(msg.prefix, useAuth=False)',
          'set secure: the guard is not user.checkPassword(password) and user.checkHostmask(msg.prefix, useAuth=False): '
          + ast.unparse(ifs[0].test))
-    need([ast.unparse(x) for x in ifs[0].body][:2] == ['user.secure = value', 'ircdb.users.setUser(user)'],
+    _, str_, sc_h = _site(setc, 'secure', ['user.secure = secure'], [['ircdb.users.setUser(user)']],
+                          saved=['secure = user.secure', 'user.secure = value'])
+    gb = [ast.unparse(x) for x in ifs[0].body]
+    need(gb[:2] == ['user.secure = value', 'ircdb.users.setUser(user)'] if str_ is None
+         else gb[:2] == ['secure = user.secure', 'user.secure = value'] and ifs[0].body[2] is str_,
          'set secure: body of the guarded branch changed')
-    need(_setuser_sites(sec)[0][1] is None, 'set secure: setUser is now inside a try (model it)')
     out = 'Require Import Base.Wire.\n'
     out += '(* the useAuth argument of the checkHostmask call in the guard of user set secure *)\n'
     out += 'Definition SECURE_GUARD_USEAUTH : bool := false.\n'
@@ -157,5 +160,5 @@ def gen_T04():
     out += '(* the undo of hostmask add is skipped when the account owned the mask before (alreadyThere) *)\n'
     out += 'Definition HM_ADD_GUARDED : bool := %s.\n' % cbool(g)
     out += _emit('IDENTIFY_HANDLERS', id_h) + _emit('UNIDENTIFY_HANDLERS', un_h) + _emit('CHANGENAME_HANDLERS', cn_h)
-    out += _emit('REMOVE_HANDLERS', rm_h) + _emit('REGISTER_HANDLERS', rg_h)
+    out += _emit('REMOVE_HANDLERS', rm_h) + _emit('REGISTER_HANDLERS', rg_h) + _emit('SECURE_HANDLERS', sc_h)
     return 'plugins/User/plugin.py', out
